@@ -150,6 +150,10 @@ class _DA:
                 # conditionally assigned under a fact that holds now?
                 if any((f, n.id) in cond for f in facts):
                     continue
+                # assigned under T and under not T (two complementary ifs)
+                under = {f for f, nm in cond if nm == n.id}
+                if any(("!" + f) in under for f in under if not f.startswith("!")):
+                    continue
                 self.problems.append((n.id, n))
 
     def _reads(self, e: ast.AST):
@@ -192,6 +196,10 @@ class _DA:
         while isinstance(t, ast.UnaryOp) and isinstance(t.op, ast.Not):
             pol = not pol
             t = t.operand
+        if isinstance(t, ast.Compare) and len(t.ops) == 1 and isinstance(t.ops[0], (ast.NotIn, ast.NotEq, ast.IsNot)):
+            pos = {ast.NotIn: ast.In, ast.NotEq: ast.Eq, ast.IsNot: ast.Is}[type(t.ops[0])]
+            t = ast.Compare(left=t.left, ops=[pos()], comparators=t.comparators)
+            pol = not pol
         return unparse(t), pol
 
     def implied(self, test: ast.expr) -> List[str]:
@@ -273,7 +281,9 @@ class _DA:
             self.use(s.value, st)
             if isinstance(s.target, ast.Name):
                 if s.target.id in self.locals and s.target.id not in st[0]:
-                    if not any((f, s.target.id) in st[2] for f in st[1]):
+                    under = {f for f, nm in st[2] if nm == s.target.id}
+                    both = any(("!" + f) in under for f in under if not f.startswith("!"))
+                    if not both and not any((f, s.target.id) in st[2] for f in st[1]):
                         self.problems.append((s.target.id, s.target))
                 return self.assign_names(st, {s.target.id})
             self.use(s.target, st)
